@@ -343,6 +343,8 @@ type simHandle struct {
 	dir     bool
 	dirName string
 	dirPos  int
+	fi, ver int
+	counted bool
 }
 
 func (h *simHandle) Stat() (fs.FileInfo, error) { return h.info, nil }
@@ -352,6 +354,10 @@ func (h *simHandle) Read(p []byte) (int, error) {
 		return 0, &fs.PathError{Op: "read", Path: h.info.name, Err: errors.New("is a directory")}
 	}
 	simrt.Yield(-21)
+	if !h.counted {
+		h.counted = true
+		h.fs.note(h.fi, h.ver, true) // the content is read now
+	}
 	if h.errAt >= 0 && h.pos >= h.errAt {
 		return 0, &fs.PathError{Op: "read", Path: h.info.name, Err: syscall.EIO}
 	}
@@ -410,9 +416,9 @@ func (s *SimFS) Open(name string) (fs.File, error) {
 	if isDir {
 		return &simHandle{fs: s, info: simInfo{name: path.Base(name), dir: true}, dir: true, dirName: path.Clean(name), errAt: -1}, nil
 	}
-	s.note(fi, ver, true)
+	s.note(fi, ver, false) // fs.Stat falls back to Open + File.Stat: opening is not yet reading the content
 	v := s.files[fi].versions[ver]
-	h := &simHandle{fs: s, data: v.Content, errAt: -1,
+	h := &simHandle{fs: s, data: v.Content, errAt: -1, fi: fi, ver: ver,
 		info: simInfo{name: path.Base(name), size: int64(len(v.Content)), mtime: mtimeOf(v.MtimeNs)}}
 	if faulted {
 		switch f.Kind {
